@@ -16,11 +16,15 @@ Fault points are universally quantified in the theorems.
   "argsort, then gather").
 * `to_vec`, `to_owned`/`From`, `Extend<Ref>`: the source is only read; a panic in `Clone`
   destroys the part copy (modelled by construction, checked by the ledger monitor).
-* `resize` / `extend_from_slice` with a `Clone` that panics while a *later* field is cloned:
-  the full-strength statement is **false** for structs with more than one field array —
-  `resize_fault_desync` proves the negation for every such case (known findings
-  KF-C16-resize-clone-panic / KF-C16-extend_from_slice-clone-panic); `resize_fault_single`
-  is the part that holds (one field array).
+* `resize`, `extend_from_slice`, `Extend<Ref>`: every element is cloned *whole*
+  (`to_owned()`) before it is pushed, so a `Clone` panic happens while a value that is not
+  yet part of the container is being built.  For **every** number `j` of elements already
+  pushed when it happens, the container is in lockstep with its shape and holds exactly its
+  old rows followed by the first `j` new ones (`extend_fault_coherent`); `resize` and
+  `extend_from_slice` are such loops by definition of the model (`resize_is_extend`,
+  `extendFromSlice_is_extend`).  (Until /repo commit 72750cf both methods worked field by
+  field and left field arrays of different lengths; `fieldwise_resize_desync` keeps the
+  proof that the old shape of the code could not satisfy the property.)
 -/
 namespace Soa.C16
 open Soa
@@ -65,7 +69,31 @@ def sortTwoPhase (c : Cols) (w : View.Win) (le : Nat → Nat → Bool) (fault : 
 theorem sort_fault_atomic (w : View.Win) (le : Nat → Nat → Bool) :
     (sortTwoPhase c w le true).1 = c ∧ (sortTwoPhase c w le true).2 = true := ⟨rfl, rfl⟩
 
-/-! ## `resize` / `extend_from_slice` with a panicking `Clone` (known findings) -/
+/-! ## `resize` / `extend_from_slice` / `Extend<Ref>` with a panicking `Clone` -/
+
+/-- **every fault point**: when `Clone` panics while the `(j+1)`-th new element is being built,
+    `j` whole elements have been pushed: the container is in lockstep with its shape and its
+    rows are the old rows followed by the first `j` new ones — nothing lost, nothing
+    duplicated, no field array ahead of another -/
+theorem extend_fault_coherent (es : List Cols) (j : Nat) (hc : c.lock n)
+    (he : ∀ e ∈ es, e.lock 1 ∧ c.same e) :
+    (Model.extend c (es.take j)).panicked = false ∧
+    (∃ m, (Model.extend c (es.take j)).st.lock m) ∧ c.same (Model.extend c (es.take j)).st ∧
+    (Model.extend c (es.take j)).st.rows = c.rows ++ ((es.take j).map Cols.rows).flatten := by
+  have h := C01.extend (es.take j) c n hc (fun e hm => he e (List.mem_of_mem_take hm))
+  exact ⟨by rw [h.panicked]; rfl, h.lock, h.same, by rw [h.st]; rfl⟩
+
+/-- growing `resize` is the push loop over clones of the value -/
+theorem resize_is_extend (dr : Bool) (k : Nat) (e : Cols) (hk : k > c.firstLen) :
+    (Model.resize dr c k e).st = (Model.extend c (List.replicate (k - c.firstLen) e)).st ∧
+    (Model.resize dr c k e).panicked = (Model.extend c (List.replicate (k - c.firstLen) e)).panicked := by
+  simp [Model.resize, hk]
+
+/-- `extend_from_slice` is the push loop over the elements of the source -/
+theorem extendFromSlice_is_extend (src : Cols) :
+    (Model.extendFromSlice c src).st = (Model.extend c ((List.range src.firstLen).map (Model.rowCols src))).st := rfl
+
+/-! ## why the element-wise loop is needed: the field-by-field version (the code before 72750cf) -/
 
 /-- the leaf arrays after `resize(new_len, value)` when `Clone` panics inside the `j`-th field
     array's `Vec::resize` after `part` copies: the earlier field arrays are fully resized,
@@ -78,7 +106,7 @@ def resizeFaultLeaves (ls : List (List Nat)) (vals : List Nat) (newLen j part : 
 
 /-- **the full-strength statement fails**: with at least two field arrays, growing, and the
     fault in any field array but the first, the field arrays end up with different lengths -/
-theorem resize_fault_desync (ls : List (List Nat)) (vals : List Nat) (n newLen j part : Nat)
+theorem fieldwise_resize_desync (ls : List (List Nat)) (vals : List Nat) (n newLen j part : Nat)
     (hl : ∀ l ∈ ls, l.length = n) (hgrow : n < newLen) (hj0 : 0 < j) (hj : j < ls.length)
     (hpart : n + part < newLen) :
     ¬ ∃ m, ∀ l ∈ resizeFaultLeaves ls vals newLen j part, l.length = m := by
@@ -100,11 +128,11 @@ theorem resize_fault_desync (ls : List (List Nat)) (vals : List Nat) (n newLen j
   omega
 
 /-- the part that holds: a struct with a single field array is coherent after the fault -/
-theorem resize_fault_single (l : List Nat) (vals : List Nat) (newLen part : Nat) :
+theorem fieldwise_resize_single (l : List Nat) (vals : List Nat) (newLen part : Nat) :
     ∃ m, ∀ x ∈ resizeFaultLeaves [l] vals newLen 0 part, x.length = m :=
   ⟨(l ++ List.replicate part (vals.getD 0 0)).length, by simp [resizeFaultLeaves]⟩
 
-/-- witness of the known finding: `{flag, x}` empty, `resize(3, v)` with the clone fuse at 0
+/-- witness (the defect repaired by 72750cf): `{flag, x}` empty, `resize(3, v)` with the clone fuse at 0
     for the second field: leaf arrays `[[216,216,216],[]]` … the real code's `[[216],[]]`
     differs only in how far the first field got — both are out of lockstep -/
 example : resizeFaultLeaves [[], []] [216, 217] 3 1 0 = [[216, 216, 216], []] := by decide
